@@ -29,3 +29,22 @@ func VH_C11_isBitSet_layout() {
 	}
 	vndAssert(got == want, "coil i is bit i%8 of byte i/8")
 }
+
+// VH_C11_packing: the library's write-side packing follows the same layout the lookup must invert:
+// coil i of a write-multiple-coils request is bit i%8 of data byte i/8, unused bits are zero.
+func VH_C11_packing() {
+	n := vndParam("n")
+	coils := vndBools("coils", n)
+	b := CoilsToBytes(coils)
+	vndCover("packed")
+	vndAssert(len(b) == (n+7)/8, "ceil(n/8) data bytes")
+	ok := true
+	for i := 0; i < 8*len(b); i++ {
+		bit := b[i/8]>>(uint(i)%8)&1 == 1
+		want := i < n && coils[i]
+		if bit != want {
+			ok = false
+		}
+	}
+	vndAssert(ok, "coil i is bit i%8 of byte i/8 and padding bits are zero")
+}
